@@ -10,10 +10,11 @@ Taken as inputs, not modelled (Go runtime / standard library, not logic of this 
   rendering, computed by the harness with strconv/encoding/json;
 * `net.ParseIP` (+ `To4`): the parameter `parseIP`, tabulated on the line by the harness;
 * the JSON text of an event's attribute map (`json.Marshal(map[string]interface{})`): `ZEvent.json`.
-JSON strings inside string slices are modelled for characters that `encoding/json` does not escape
-(the generators use those only).
+JSON strings inside string slices follow encoding/json's escaping rules (`jsonEscapeChunk`, over the rune walk of
+Otel.Base.Utf8).
 -/
 import Otel.C13.Model
+import Otel.Base.Utf8
 namespace Otel.C13
 
 /-- `attribute.Value` as the Zipkin conversion sees it -/
@@ -99,9 +100,32 @@ def joinWith (sep : UInt8) : List Bytes → Bytes
   | [x] => x
   | x :: y :: rest => x ++ sep :: joinWith sep (y :: rest)
 
-/-- `json.Marshal` of a `[]bool` / `[]int64` / `[]string` (strings without characters that need escaping) -/
+/-- `json.Marshal` of a `[]bool` / `[]int64` / `[]string` -/
 def jsonArray (items : List Bytes) : Bytes := 91 :: joinWith 44 items ++ [93]
-def jsonStr (s : Bytes) : Bytes := 34 :: s ++ [34]
+
+/-- lower-case hex digit -/
+def hexd (n : Nat) : UInt8 := if n < 10 then UInt8.ofNat (48 + n) else UInt8.ofNat (87 + n)
+
+/-- `\uXXXX` -/
+def jsonU4 (n : Nat) : Bytes := [92, 117, hexd (n / 4096 % 16), hexd (n / 256 % 16), hexd (n / 16 % 16), hexd (n % 16)]
+
+/-- one step of encoding/json `appendString` with `escapeHTML = true` (what `json.Marshal` uses), for one rune chunk
+of `for i, c := range s`: `"` and `\` get a backslash; \b \f \n \r \t their short forms; other bytes below 0x20
+and `<`, `>`, `&` become `\u00XX`; an invalid UTF-8 byte becomes `\ufffd`; U+2028 / U+2029 become `\u2028` / `\u2029`;
+everything else (0x7f and every valid multi-byte rune included) is copied. -/
+def jsonEscapeChunk (c : Utf8.Chunk) : Bytes :=
+  if c.invalid then jsonU4 0xFFFD
+  else if c.rune = 0x22 then [92, 34] else if c.rune = 0x5C then [92, 92]
+  else if c.rune = 8 then [92, 98] else if c.rune = 12 then [92, 102] else if c.rune = 10 then [92, 110]
+  else if c.rune = 13 then [92, 114] else if c.rune = 9 then [92, 116]
+  else if c.rune < 0x20 ∨ c.rune = 0x3C ∨ c.rune = 0x3E ∨ c.rune = 0x26 then jsonU4 c.rune
+  else if c.rune = 0x2028 ∨ c.rune = 0x2029 then jsonU4 c.rune
+  else c.bytes
+
+def jsonEscape (s : Bytes) : Bytes := (Utf8.chunks s).flatMap jsonEscapeChunk
+
+/-- a JSON string as `json.Marshal` writes it -/
+def jsonStr (s : Bytes) : Bytes := 34 :: jsonEscape s ++ [34]
 
 /-- `attributeToStringPair` (model.go:160-179): slices as JSON lists, everything else `Value.Emit()`
 (INVALID → "unknown") -/
@@ -497,7 +521,9 @@ def stepZipkinModel (inp obs : List String) : Option Verdict := do
                     (if events.any (fun e => e.nattrs > 0 && e.json != []) then ["anno-json"] else []) ++
                     (if events.any (fun e => e.nattrs > 0 && e.json == []) then ["anno-json-failed"] else []) ++
                     (if (attrs ++ resAttrs).any (fun kv => match kv.val with | .boolSlice _ | .intSlice _ | .floatSlice _ | .strSlice _ => true | _ => false) then ["slice-tag"] else []) ++
-                    (if (attrs ++ resAttrs).any (fun kv => kv.val == .invalid) then ["invalid-tag"] else [])
+                    (if (attrs ++ resAttrs).any (fun kv => kv.val == .invalid) then ["invalid-tag"] else []) ++
+                    (if (attrs ++ resAttrs).any (fun kv => match kv.val with | .strSlice l => l.any (fun e => jsonEscape e != e) | _ => false) then ["json-escaped"] else []) ++
+                    (if (attrs ++ resAttrs).any (fun kv => match kv.val with | .strSlice l => l.any (fun e => !Utf8.validString e) | _ => false) then ["json-invalid-utf8"] else [])
                   pure { agree := agree, spec := if ok then "ok" else "FAIL",
                          nontrivial := !attrs.isEmpty || !resAttrs.isEmpty || x.tags.code != 0 || !events.isEmpty,
                          branches := ",".intercalate br,
